@@ -122,6 +122,8 @@ class Adapter:
 
     def scale_reward(self, r, scale):
         v = r * scale
+        if v != v or v in (float("inf"), float("-inf")):
+            return {"inexact": 0.0, "crashed_or_nonfinite": True}
         iv = int(round(v))
         if self.exact and abs(v - iv) > 1e-3:
             return {"inexact": v}
